@@ -15,6 +15,12 @@ def run(ctx):
     from lib.replay import replay_family
     g = ctx.tlc("Pkg", "Gen_Pkg.cfg", workers=1, timeout=600, constants={"MaxOps": 4 if q else 6}, tag="Pkg override: all histories")
     replay_family(ctx, "pkg", ctx.behaviours(g))
+    # interface variables: handles kept across Reset (b.Interface(&v) and .Method(m) values used again) - a fresh configuration starts
+    # from scratch: methods mocked before the Reset answer 'method not implements' afterwards (Iface.tla, HeldOps)
+    gh = ctx.tlc("MC_Iface", "Gen_Iface.cfg", workers=1, timeout=1500, constants={"MaxOps": 5, "Ops": "<- HeldOps", "V": '{"i1"}', "M": "<- M1h", "Kinds": '{"stub"}' if q else '{"stub", "apply"}', "Args": "{7}"},
+                 tag="interface handles kept across Reset: all histories to depth 5")
+    hb = [b for b in ctx.behaviours(gh) if any(x["op"] == "Reset" for x in b) and b[-1]["op"] == "Call"]
+    replay_family(ctx, "iface", hb, env={"GODEBUG": "clobberfree=1"}, batch=4000)
     ctx.cov["exhaustive"] = True
     ctx.cov["rule"] = ("every history over {Apply,Return,Returns,When,Cancel,Reset,Call} up to the stated depth on the "
                        "bounded constants plus seeded random length-10 histories over all ops (incl. Origin); each "
